@@ -149,6 +149,7 @@ type engine struct {
 	srv         *rt.Server
 	wait        time.Duration
 	dirty       bool
+	slowAll     bool // replay of a recorded violation: every setup meets the slow broker
 	setupFailed int
 }
 
@@ -237,7 +238,7 @@ func (e *engine) setup() (w *world, err error) {
 			// the last client meets a broker that is slow to register subscriptions: when its first sync is reported
 			// complete (state-change handler), it must already be listening to the topic - a push made right then is
 			// announced only to those who are
-			slow := c == e.n && k == e.k && e.nth%3 == 0
+			slow := c == e.n && k == e.k && (e.nth%3 == 0 || e.slowAll)
 			if slow {
 				e.srv.St.BR.SetSubscribeDelay(20 * time.Millisecond)
 			}
@@ -1041,6 +1042,7 @@ func replayFile(path string, verbose bool) int {
 		return 2
 	}
 	e := newEngine(v.Property, v.N, v.K, 1, "", 0, 20)
+	e.slowAll = true
 	last := len(v.Steps) - 1
 	e.behaviour(v.Steps, func(i int) *Obs {
 		if i == last {
